@@ -137,14 +137,16 @@ func (r Registry) resolveImportConflict(a, b *Package, lvl int) {
 		return
 	}
 
-	for _, p := range []*Package{a, b} {
+	for i, p := range []*Package{a, b} {
+		other := []*Package{b, a}[i]
 		name := p.uniqueName(lvl)
 		// Even though the name is not conflicting with the other package we
 		// got, the new name we want to pick might already be taken. So check
 		// again for conflicts and resolve them as well. Since the name for
 		// this package would also get set in the recursive function call, skip
-		// setting the alias after it.
-		if conflict, ok := r.searchImport(name); ok && conflict != p {
+		// setting the alias after it. The other package of this pair is about
+		// to get its own distinct name, so it can not hold on to this one.
+		if conflict, ok := r.searchImport(name); ok && conflict != p && conflict != other {
 			r.resolveImportConflict(p, conflict, lvl+1)
 			continue
 		}
